@@ -104,7 +104,7 @@ func exactArgsRule(w *World, r *Report, e *Engine, rule string, callFn *ssa.Func
 			}
 			return true, ""
 		case *ssa.Call:
-			g := x.Call.StaticCallee()
+			g := closureCallee(e, &x.Call)
 			if g == nil || !inModule(g) || len(g.Blocks) == 0 {
 				return false, "the vector is the result of " + describeVal(e, v, 0) + ", not of the argument builder"
 			}
@@ -113,10 +113,14 @@ func exactArgsRule(w *World, r *Report, e *Engine, rule string, callFn *ssa.Func
 			}
 			// a carrier: returns one of its parameters, which it only reads
 			for _, rt := range (&evalModel{}).returns(g) {
-				rv := rt[1].(ssa.Value)
+				rv := resolveRet(rt[1].(ssa.Value))
 				p, ok := rv.(*ssa.Parameter)
 				if !ok {
-					return false, w.fnName(g) + " stands between the builder and the call and returns a vector of its own making"
+					// ... or hands back what the builder returned to it
+					if ok2, why := fromBuilder(rv, depth+1); !ok2 {
+						return false, w.fnName(g) + " stands between the builder and the call and returns a vector of its own making (" + why + ")"
+					}
+					continue
 				}
 				if ok, pos := readOnly(p, 0); !ok {
 					return false, w.fnName(g) + " stands between the builder and the call and writes the vector (or hands it to something that may) at " + w.pos(pos)
@@ -306,61 +310,115 @@ func carrierNotBoundRule(w *World, r *Report, e *Engine, rule string) {
 		return
 	}
 	n := 0
-	for _, f := range w.withPkgHelpers(fn) {
-		// carriers: the lisp-value parameters of the binder and of the helpers it is built from
-		carrier := map[ssa.Value]bool{}
-		for _, p := range f.Params {
-			if isMalType(p.Type()) || valueStruct(p.Type()) {
-				carrier[p] = true
+	// carriers: the lisp-value parameters of the binder, and the parameters of the functions it is built from
+	// that are handed a carrier whole (other than as the value of a binding, which is what the rule forbids)
+	carrier := map[ssa.Value]bool{}
+	for _, p := range fn.Params {
+		if isMalType(p.Type()) || valueStruct(p.Type()) {
+			carrier[p] = true
+		}
+	}
+	isBinding := func(g *ssa.Function) bool {
+		if g == nil {
+			return false
+		}
+		for _, p := range g.Params {
+			if isBasic(p.Type(), types.String) {
+				return true
+			}
+			if n, ok := p.Type().(*types.Named); ok && n.Obj().Name() == "Symbol" {
+				return true
 			}
 		}
-		var whole func(v ssa.Value, depth int) ssa.Value
-		whole = func(v ssa.Value, depth int) ssa.Value {
-			if depth > 8 {
-				return nil
+		return false
+	}
+	var whole func(v ssa.Value, depth int) ssa.Value
+	whole = func(v ssa.Value, depth int) ssa.Value {
+		if depth > 8 {
+			return nil
+		}
+		if carrier[v] {
+			return v
+		}
+		switch x := v.(type) {
+		case *ssa.MakeInterface:
+			return whole(x.X, depth+1)
+		case *ssa.ChangeInterface:
+			return whole(x.X, depth+1)
+		case *ssa.ChangeType:
+			return whole(x.X, depth+1)
+		case *ssa.TypeAssert:
+			return whole(x.X, depth+1)
+		case *ssa.Extract:
+			if ta, ok := x.Tuple.(*ssa.TypeAssert); ok && x.Index == 0 {
+				return whole(ta.X, depth+1)
 			}
-			if carrier[v] {
-				return v
-			}
-			switch x := v.(type) {
-			case *ssa.MakeInterface:
-				return whole(x.X, depth+1)
-			case *ssa.ChangeInterface:
-				return whole(x.X, depth+1)
-			case *ssa.ChangeType:
-				return whole(x.X, depth+1)
-			case *ssa.TypeAssert:
-				return whole(x.X, depth+1)
-			case *ssa.Extract:
-				if ta, ok := x.Tuple.(*ssa.TypeAssert); ok && x.Index == 0 {
-					return whole(ta.X, depth+1)
+		case *ssa.Phi:
+			for _, ed := range x.Edges {
+				if c := whole(ed, depth+1); c != nil {
+					return c
 				}
-			case *ssa.Phi:
-				for _, ed := range x.Edges {
-					if c := whole(ed, depth+1); c != nil {
+			}
+		case *ssa.UnOp:
+			if al, ok := x.X.(*ssa.Alloc); ok && x.Op == token.MUL {
+				for _, st := range e.storesTo(al) {
+					if c := whole(st.Val, depth+1); c != nil {
 						return c
 					}
 				}
-			case *ssa.UnOp:
-				if al, ok := x.X.(*ssa.Alloc); ok && x.Op == token.MUL {
-					for _, st := range e.storesTo(al) {
-						if c := whole(st.Val, depth+1); c != nil {
-							return c
+			}
+		}
+		return nil
+	}
+	helpers := w.withPkgHelpers(fn)
+	for pass := 0; pass < 2; pass++ {
+		for _, f := range helpers {
+			for _, b := range f.Blocks {
+				for _, in := range b.Instrs {
+					c, ok := in.(*ssa.Call)
+					if !ok {
+						continue
+					}
+					g := c.Call.StaticCallee()
+					if g == nil || g.Pkg != f.Pkg || isBinding(g) || len(g.Params) != len(c.Call.Args) {
+						continue
+					}
+					for i, a := range c.Call.Args {
+						if whole != nil && whole(a, 0) != nil {
+							carrier[g.Params[i]] = true
 						}
 					}
 				}
 			}
-			return nil
 		}
+	}
+	for _, f := range helpers {
 		for _, b := range f.Blocks {
 			for _, in := range b.Instrs {
-				mu, ok := in.(*ssa.MapUpdate)
-				if !ok || !types.IsInterface(mu.Value.Type()) {
-					continue
+				// a binding: a write into a table, or a call of a function of the package that takes a name
+				// (symbol or string) and a value
+				var bound []ssa.Value
+				switch x := in.(type) {
+				case *ssa.MapUpdate:
+					if types.IsInterface(x.Value.Type()) {
+						bound = append(bound, x.Value)
+					}
+				case *ssa.Call:
+					g := x.Call.StaticCallee()
+					if g == nil || g.Pkg != f.Pkg || len(g.Params) != len(x.Call.Args) || !isBinding(g) {
+						continue
+					}
+					for i, p := range g.Params {
+						if types.IsInterface(p.Type()) && !isErrorType(p.Type()) {
+							bound = append(bound, x.Call.Args[i])
+						}
+					}
 				}
-				n++
-				c := whole(mu.Value, 0)
-				r.check(c == nil, rule, f, "value bound to a name", mu.Pos(), "an element of the carrier, or a list newly made of elements", "the argument carrier itself ("+describeVal(e, mu.Value, 0)+") is bound to a name: it carries the position (and metadata) its maker gave it - Apply gives it the position of the callee's definition - so a form built from that parameter is reported where the callee was defined, not where the program wrote it")
+				for _, v := range bound {
+					n++
+					c := whole(v, 0)
+					r.check(c == nil, rule, f, "value bound to a name", in.Pos(), "an element of the carrier, or a list newly made of elements", "the argument carrier itself ("+describeVal(e, v, 0)+") is bound to a name: it carries the position (and metadata) its maker gave it - Apply gives it the position of the callee's definition - so a form built from that parameter is reported where the callee was defined, not where the program wrote it")
+				}
 			}
 		}
 	}
@@ -568,7 +626,6 @@ func setTotalRule(w *World, r *Report, e *Engine, rule string) {
 		return
 	}
 	var setters []*ssa.Function
-	isSetter := map[*ssa.Function]bool{}
 	for _, fn := range w.pkgFuncs("env") {
 		if fn.Signature.Recv() == nil || fn.Parent() != nil || len(fn.Params) != 3 || len(fn.Blocks) == 0 {
 			continue
@@ -580,44 +637,69 @@ func setTotalRule(w *World, r *Report, e *Engine, rule string) {
 			continue
 		}
 		setters = append(setters, fn)
-		isSetter[fn] = true
 	}
-	for _, fn := range setters {
-		var stores []ssa.Instruction
+	// isName: v is the name of the symbol keyV (keyV itself when it is already a string)
+	isName := func(v, keyV ssa.Value) bool {
+		if v == keyV {
+			return isBasic(keyV.Type(), types.String)
+		}
+		switch k := v.(type) {
+		case *ssa.Field:
+			return k.X == keyV && fieldName(k.X.Type(), k.Field) == "Val"
+		case *ssa.UnOp:
+			if fa, ok := k.X.(*ssa.FieldAddr); ok && fieldName(fa.X.Type(), fa.Field) == "Val" {
+				if ld, ok := fa.X.(*ssa.Alloc); ok {
+					// the spilled symbol parameter: its one store is the parameter itself
+					nst, hit := 0, false
+					for _, ref := range *ld.Referrers() {
+						if st, ok := ref.(*ssa.Store); ok && st.Addr == ssa.Value(ld) {
+							nst++
+							hit = st.Val == keyV
+						}
+					}
+					return hit && nst == 1
+				}
+			}
+		}
+		return false
+	}
+	// storesOf: the instructions of fn that store valV under the name of keyV - a write into a table, or a call of
+	// a function of the package that does so on every path to its return
+	var storesOf func(fn *ssa.Function, keyV, valV ssa.Value, depth int) []ssa.Instruction
+	var always func(g *ssa.Function, ki, vi int, depth int) bool
+	storesOf = func(fn *ssa.Function, keyV, valV ssa.Value, depth int) []ssa.Instruction {
+		var out []ssa.Instruction
 		for _, b := range fn.Blocks {
 			for _, in := range b.Instrs {
 				switch x := in.(type) {
 				case *ssa.MapUpdate:
-					// data[key.Val] = value
-					keyOK := false
-					switch k := x.Key.(type) {
-					case *ssa.Field:
-						keyOK = k.X == ssa.Value(fn.Params[1])
-					case *ssa.UnOp:
-						if fa, ok := k.X.(*ssa.FieldAddr); ok {
-							if ld, ok := fa.X.(*ssa.Alloc); ok {
-								// the spilled symbol parameter: its one store is the parameter itself
-								nst := 0
-								for _, ref := range *ld.Referrers() {
-									if st, ok := ref.(*ssa.Store); ok && st.Addr == ssa.Value(ld) {
-										nst++
-										keyOK = st.Val == ssa.Value(fn.Params[1])
-									}
-								}
-								keyOK = keyOK && nst == 1 && fieldName(fa.X.Type(), fa.Field) == "Val"
-							}
-						}
-					}
-					if keyOK && stripConv(x.Value) == ssa.Value(fn.Params[2]) {
-						stores = append(stores, x)
+					if isName(x.Key, keyV) && stripConv(x.Value) == valV {
+						out = append(out, x)
 					}
 				case *ssa.Call:
-					if g := x.Call.StaticCallee(); g != nil && isSetter[g] && g != fn && len(x.Call.Args) == 3 && x.Call.Args[0] == ssa.Value(fn.Params[0]) && x.Call.Args[1] == ssa.Value(fn.Params[1]) && x.Call.Args[2] == ssa.Value(fn.Params[2]) {
-						stores = append(stores, x)
+					g := x.Call.StaticCallee()
+					if g == nil || g == fn || g.Pkg != fn.Pkg || len(g.Blocks) == 0 || depth > 2 {
+						continue
+					}
+					ki, vi := -1, -1
+					for i, a := range x.Call.Args {
+						if a == keyV || isName(a, keyV) {
+							ki = i
+						}
+						if stripConv(a) == valV {
+							vi = i
+						}
+					}
+					if ki >= 0 && vi >= 0 && ki < len(g.Params) && vi < len(g.Params) && always(g, ki, vi, depth+1) {
+						out = append(out, x)
 					}
 				}
 			}
 		}
+		return out
+	}
+	domAll := func(fn *ssa.Function, stores []ssa.Instruction, report func(ret *ssa.Return, done bool)) bool {
+		all := true
 		for _, b := range fn.Blocks {
 			if len(b.Instrs) == 0 || b == fn.Recover {
 				continue
@@ -632,8 +714,21 @@ func setTotalRule(w *World, r *Report, e *Engine, rule string) {
 					done = true
 				}
 			}
-			r.check(done, rule, fn, "return of "+fn.Name(), ret.Pos(), "the value was stored under the symbol's name", "this return can be reached without the value having been stored under the name it was given (a name treated specially, a condition on the value): def or let of that name evaluates the expression and binds nothing, so the next use of the name finds an outer binding or none")
+			if report != nil {
+				report(ret, done)
+			}
+			all = all && done
 		}
+		return all
+	}
+	always = func(g *ssa.Function, ki, vi int, depth int) bool {
+		return domAll(g, storesOf(g, g.Params[ki], g.Params[vi], depth), nil)
+	}
+	for _, fn := range setters {
+		stores := storesOf(fn, fn.Params[1], fn.Params[2], 0)
+		domAll(fn, stores, func(ret *ssa.Return, done bool) {
+			r.check(done, rule, fn, "return of "+fn.Name(), ret.Pos(), "the value was stored under the symbol's name", "this return can be reached without the value having been stored under the name it was given (a name treated specially, a condition on the value): def or let of that name evaluates the expression and binds nothing, so the next use of the name finds an outer binding or none")
+		})
 	}
 	r.floor(rule, "binding methods of Env", len(setters), 2)
 }
@@ -651,4 +746,479 @@ func stripConv(v ssa.Value) ssa.Value {
 			return v
 		}
 	}
+}
+
+// scannerConfigRule: what one token is - where a symbol or keyword name ends, what is white space, which token
+// kinds exist - is decided by the scanner's own rules, which the printer's verbatim output of names relies on.
+// The reader hands the scanner its text (and a file name) and leaves those rules as Init set them.
+func scannerConfigRule(w *World, r *Report, rule string) {
+	r.rule(rule, "the reader leaves the token rules of the scanner as its Init set them: no function of the module assigns the scanner's Mode, Whitespace or IsIdentRune (a home-made identifier rule that differs from the scanner's for some character - a non-ASCII digit, say - cuts names the printer writes in one piece)")
+	n := 0
+	for _, fn := range w.Funcs {
+		if isTestFunc(w, fn) || !inModule(fn) {
+			continue
+		}
+		for _, b := range fn.Blocks {
+			for _, in := range b.Instrs {
+				st, ok := in.(*ssa.Store)
+				if !ok {
+					continue
+				}
+				fa, ok := st.Addr.(*ssa.FieldAddr)
+				if !ok {
+					continue
+				}
+				t := fa.X.Type()
+				if p, ok := t.Underlying().(*types.Pointer); ok {
+					t = p.Elem()
+				}
+				nt, ok := t.(*types.Named)
+				if !ok || nt.Obj().Name() != "Scanner" || nt.Obj().Pkg() == nil || !strings.HasSuffix(nt.Obj().Pkg().Path(), "scanner") {
+					continue
+				}
+				n++
+				switch name := fieldName(fa.X.Type(), fa.Field); name {
+				case "Mode", "Whitespace", "IsIdentRune":
+					r.bad(rule, fn, "assignment to the scanner's "+name, st.Pos(), "the reader replaces the scanner's "+name+": what counts as one token is no longer what the scanner's own rules say, and names, numbers or strings the printer writes in one piece can be cut differently when read back")
+				default:
+					r.ok(rule, fn, "assignment to the scanner's "+name, st.Pos(), "not a token rule")
+				}
+			}
+		}
+	}
+	r.add(rule, nil, "assignments to fields of the scanner", token.NoPos, "ok", fmt.Sprintf("%d examined", n))
+}
+
+// literalTableRule: the few identifiers the reader does not read as symbols (nil, true, false) are exactly the
+// spellings the printer writes for those values. Any further spelling read as a value takes a name away from
+// the symbols: the symbol so named is printed under its name and comes back as something else.
+func literalTableRule(w *World, r *Report, e *Engine, rule string) {
+	r.rule(rule, "an identifier token is read as a value other than a symbol only when it is spelled as the printer spells that value: nil for nil (the printer's own constant), true and false for the booleans (Go's formatting); every other identifier is a symbol of that name, so every symbol reads back as itself")
+	ra := w.Fn("reader", "read_atom")
+	pr := w.Fn("printer", "Pr_str")
+	if ra == nil || pr == nil {
+		r.undecided(rule, nil, "read_atom / Pr_str", token.NoPos, "functions no longer resolve")
+		return
+	}
+	// the printer's spelling of nil: the constant returned where the printed object was compared with nil
+	printerNil := ""
+	for _, rt := range (&evalModel{}).returns(pr) {
+		ret := rt[0].(*ssa.Return)
+		c, ok := ret.Results[0].(*ssa.Const)
+		if !ok || c.Value == nil || c.Value.Kind() != constant.String {
+			continue
+		}
+		for _, a := range knownConds(ret.Block()) {
+			if bo, ok := a.v.(*ssa.BinOp); ok && a.pol && bo.Op == token.EQL && isNilConst(bo.Y) && stripConv(bo.X) == ssa.Value(pr.Params[0]) {
+				printerNil = constant.StringVal(c.Value)
+			}
+		}
+	}
+	if printerNil == "" {
+		r.undecided(rule, pr, "spelling of nil", pr.Pos(), "no constant returned by the printer under a comparison of the object with nil")
+		return
+	}
+	n := 0
+	for _, f := range w.withPkgHelpers(ra) {
+		for _, rt := range (&evalModel{}).returns(f) {
+			ret := rt[0].(*ssa.Return)
+			if len(ret.Results) < 2 {
+				continue
+			}
+			// a successful answer: a nil error, or the ok flag of a helper that looks the identifier up
+			last := resolveRet(ret.Results[len(ret.Results)-1])
+			okFlag := false
+			if c, isC := last.(*ssa.Const); isC && c.Value != nil && c.Value.Kind() == constant.Bool && constant.BoolVal(c.Value) {
+				okFlag = true
+			}
+			if !(isErrorType(last.Type()) && isNilConst(last)) && !okFlag {
+				continue
+			}
+			// the value returned: nil, or a boolean constant
+			v := resolveRet(ret.Results[0])
+			want := ""
+			switch {
+			case isNilConst(v):
+				want = printerNil
+			default:
+				if mi, ok := v.(*ssa.MakeInterface); ok {
+					if c, ok := mi.X.(*ssa.Const); ok && c.Value != nil && c.Value.Kind() == constant.Bool {
+						want = c.Value.String()
+					}
+				}
+			}
+			if want == "" {
+				continue
+			}
+			// the spellings under which this return is reached: every comparison of a string with a constant whose
+			// true edge leads (through empty blocks) to the returning block
+			var spellings []string
+			for _, d := range f.Blocks {
+				iff := blockIf(d)
+				if iff == nil {
+					continue
+				}
+				_, s, ok := strEq(iff.Cond)
+				if !ok {
+					continue
+				}
+				t := d.Succs[0]
+				for i := 0; i < 4 && t != ret.Block() && len(t.Instrs) == 1 && len(t.Succs) == 1; i++ {
+					t = t.Succs[0]
+				}
+				if t == ret.Block() {
+					spellings = append(spellings, s)
+				}
+			}
+			for _, s := range spellings {
+				n++
+				r.check(s == want, rule, f, fmt.Sprintf("identifier %q read as %s", s, want), ret.Pos(), "the printer's spelling of that value", fmt.Sprintf("the identifier %q is read as the value the printer writes %q: the symbol named %s is printed as %s and read back as that value, not as the symbol", s, want, s, s))
+			}
+		}
+	}
+	r.floor(rule, "identifiers read as values", n, 3)
+}
+
+// readersWriteNothingRule: the methods of a reference object that never take its write lock (deref, printing,
+// status) are its readers. A reader changes nothing of the object: no store to a field, and no call of a mutating
+// method of sync/atomic (Store, Swap, CompareAndSwap, Add, And, Or) on one of its fields - a flag of the object
+// set by one reader changes what another evaluation's concurrent read of the same object answers.
+func readersWriteNothingRule(w *World, r *Report, e *Engine, rule, typeName, muField string) {
+	r.rule(rule, "the methods of "+typeName+" that never hold its write lock change nothing of the object: no field store and no mutating sync/atomic operation on a field of the receiver (state kept on the object by a reader - a 'being printed' flag - is shared by every evaluation that reads the object at the same time, and makes one of them answer for the other)")
+	n := 0
+	for _, fn := range w.pkgFuncs("lib/concurrent") {
+		if fn.Signature.Recv() == nil || fn.Parent() != nil || len(fn.Blocks) == 0 {
+			continue
+		}
+		if _, name, ok := w.namedStruct(fn.Signature.Recv().Type()); !ok || name != typeName {
+			continue
+		}
+		li := e.locks(fn)
+		writer := false
+		for _, op := range li.acquires {
+			if op.mode == 2 && strings.HasSuffix(op.key, "."+muField) {
+				writer = true
+			}
+		}
+		if writer {
+			continue
+		}
+		// a method that is only ever called with the write lock held (Set) is part of its callers
+		heldByCallers := true
+		sites := e.callSites(fn)
+		for _, site := range sites {
+			held := false
+			for k, mode := range e.locks(site.Parent()).before[site] {
+				if mode == 2 && strings.HasSuffix(k, "."+muField) {
+					held = true
+				}
+			}
+			if !held {
+				heldByCallers = false
+			}
+		}
+		if len(sites) > 0 && heldByCallers {
+			continue
+		}
+		n++
+		recv := ssa.Value(fn.Params[0])
+		onRecv := func(addr ssa.Value) (string, bool) {
+			fa, ok := addr.(*ssa.FieldAddr)
+			if !ok || fa.X != recv {
+				return "", false
+			}
+			return fieldName(fa.X.Type(), fa.Field), true
+		}
+		clean := true
+		for _, b := range fn.Blocks {
+			for _, in := range b.Instrs {
+				switch x := in.(type) {
+				case *ssa.Store:
+					if f, ok := onRecv(x.Addr); ok {
+						clean = false
+						r.bad(rule, fn, "store to "+typeName+"."+f, x.Pos(), "a method that never takes the write lock of the "+typeName+" assigns one of its fields: concurrent readers of the object see and overwrite each other's state")
+					}
+				case ssa.CallInstruction:
+					c := x.Common()
+					sc := c.StaticCallee()
+					if sc == nil || sc.Pkg == nil || sc.Pkg.Pkg.Path() != "sync/atomic" || len(c.Args) == 0 {
+						continue
+					}
+					switch sc.Name() {
+					case "Store", "Swap", "CompareAndSwap", "Add", "And", "Or":
+						if f, ok := onRecv(c.Args[0]); ok {
+							clean = false
+							r.bad(rule, fn, "atomic "+sc.Name()+" on "+typeName+"."+f, x.Pos(), "a method that never takes the write lock of the "+typeName+" changes a flag kept on the object: while one evaluation is inside this method every other evaluation that reads the same object gets a different answer from the one it gets alone")
+						}
+					}
+				}
+			}
+		}
+		if clean {
+			r.ok(rule, fn, "reader "+fn.Name(), fn.Pos(), "writes nothing of its receiver")
+		}
+	}
+	r.floor(rule, "reader methods of "+typeName, n, 2)
+}
+
+// allArgumentsRule: a variadic collection builtin that answers from some of its arguments only does so where it
+// has made sure there are no more: an answer made from a[0] alone stands under a test that bounds len(a) to 1.
+// Otherwise surplus arguments (an odd key without value, keys after an object) are silently dropped where the
+// definition prescribes an error.
+func allArgumentsRule(w *World, r *Report, e *Engine, rule string) {
+	r.rule(rule, "in the variadic builtins of lib/core (func(a ...MalType)) every answer without error that is computed directly from individually indexed arguments (a call or method call on a[0], a[1] ... - not from the argument list as a whole, and not a value assembled in local variables) is given where the number of arguments is known not to exceed the highest index used: no builtin answers from its first argument and ignores the rest")
+	n := 0
+	for _, fn := range w.registeredFuncs() {
+		if !strings.HasPrefix(fnPkgPath(fn), modPath+"/lib/core") || len(fn.Params) == 0 || len(fn.Blocks) == 0 || !fn.Signature.Variadic() {
+			continue
+		}
+		a := fn.Params[len(fn.Params)-1]
+		sl, ok := a.Type().Underlying().(*types.Slice)
+		if !ok || !isMalType(sl.Elem()) {
+			continue
+		}
+		for _, rt := range (&evalModel{}).returns(fn) {
+			ret := rt[0].(*ssa.Return)
+			if len(ret.Results) == 2 {
+				// skip the returns that certainly report an error (a constructed error); an error handed on
+				// from a callee may be nil
+				ev, _ := rt[2].(ssa.Value)
+				if ev != nil && !isNilConst(ev) {
+					if _, isMI := ev.(*ssa.MakeInterface); isMI {
+						continue
+					}
+					if c, isCall := ev.(*ssa.Call); isCall {
+						if sc := c.Call.StaticCallee(); sc != nil && (fnPkgPath(sc) == "errors" || fnPkgPath(sc) == "fmt" || strings.HasSuffix(fnPkgPath(sc), "/lisperror")) {
+							continue
+						}
+					}
+				}
+			}
+			// backward slice of the value returned
+			whole, maxIdx := false, int64(-1)
+			seen := map[ssa.Value]bool{}
+			var walk func(v ssa.Value, depth int)
+			walk = func(v ssa.Value, depth int) {
+				if v == nil || seen[v] || depth > 12 || whole {
+					return
+				}
+				seen[v] = true
+				if v == ssa.Value(a) {
+					whole = true
+					return
+				}
+				switch x := v.(type) {
+				case *ssa.UnOp:
+					if ia, ok := x.X.(*ssa.IndexAddr); ok && ia.X == ssa.Value(a) {
+						if k, ok := ia.Index.(*ssa.Const); ok && k.Value != nil {
+							if k.Int64() > maxIdx {
+								maxIdx = k.Int64()
+							}
+							return
+						}
+						whole = true // a computed index ranges over the list
+						return
+					}
+					walk(x.X, depth+1)
+				case *ssa.Phi:
+					for _, ed := range x.Edges {
+						walk(ed, depth+1)
+					}
+				case *ssa.Alloc:
+					// a local composite or variable: what it holds when the answer is made is not followed here
+					// (elements added in loops, fields set one by one); such answers are not judged
+					whole = true
+				case *ssa.Extract:
+					walk(x.Tuple, depth+1)
+				case *ssa.Call:
+					if !x.Call.IsInvoke() {
+						if _, isFn := x.Call.Value.(*ssa.Function); !isFn {
+							walk(x.Call.Value, depth+1)
+						}
+					} else {
+						walk(x.Call.Value, depth+1)
+					}
+					for _, arg := range x.Call.Args {
+						walk(arg, depth+1)
+					}
+				default:
+					if in, ok := v.(ssa.Instruction); ok {
+						for _, op := range in.Operands(nil) {
+							if *op != nil {
+								walk(*op, depth+1)
+							}
+						}
+					}
+				}
+			}
+			walk(resolveRet(ret.Results[0]), 0)
+			if whole || maxIdx < 0 {
+				continue
+			}
+			n++
+			lt := Term{Kind: 1, K: e.keyOf(a)}
+			bd := e.buildGraph(e.holding(ret.Block()), nil).boundWith(lt, Term{})
+			okLen := bd <= maxIdx+1
+			why := "best bound len(a) <= " + fmtInf(bd)
+			r.check(okLen, rule, fn, fmt.Sprintf("answer made from the arguments up to a[%d] only", maxIdx), ret.Pos(), fmt.Sprintf("given only where len(a) <= %d", maxIdx+1), fmt.Sprintf("the builtin answers from its first %d argument(s) on a path where more may have been passed (%s): the surplus arguments are ignored where the call is outside the builtin's domain and has to fail", maxIdx+1, why))
+		}
+	}
+	r.add(rule, nil, "answers made from indexed arguments only", token.NoPos, "ok", fmt.Sprintf("%d examined", n))
+}
+
+// lnotationVerbatimRule: the L-notation constructors build the form a text would have been read as, from Go
+// values that already are what the form contains: a name, key or member given as a Go string is stored as that
+// string. A constructor that interprets the string (":on" as a keyword, "$x" as a placeholder) builds another
+// form than the reader builds for the text that spells the same string.
+func lnotationVerbatimRule(w *World, r *Report, e *Engine, rule string) {
+	r.rule(rule, "the L-notation constructors store the strings they are given (symbol names, map keys, set members) as given: every string written into the result is a parameter, an element or key of a parameter, or such a value handed on - never the result of a call or of slicing (a member \":a\" given as a Go string is the string \":a\", as in the text #{\":a\"})")
+	var asGiven func(v ssa.Value, depth int) bool
+	asGiven = func(v ssa.Value, depth int) bool {
+		if depth > 6 {
+			return false
+		}
+		switch x := v.(type) {
+		case *ssa.Parameter:
+			return true
+		case *ssa.Extract:
+			_, isNext := x.Tuple.(*ssa.Next)
+			return isNext
+		case *ssa.UnOp:
+			if ia, ok := x.X.(*ssa.IndexAddr); ok && x.Op == token.MUL {
+				return asGiven(ia.X, depth+1)
+			}
+		case *ssa.Phi:
+			for _, ed := range x.Edges {
+				if !asGiven(ed, depth+1) {
+					return false
+				}
+			}
+			return len(x.Edges) > 0
+		case *ssa.MakeInterface:
+			return asGiven(x.X, depth+1)
+		case *ssa.ChangeType:
+			return asGiven(x.X, depth+1)
+		case *ssa.TypeAssert:
+			return asGiven(x.X, depth+1)
+		}
+		return false
+	}
+	n := 0
+	for _, fn := range w.pkgFuncs("lnotation") {
+		if isTestFunc(w, fn) {
+			continue
+		}
+		for _, b := range fn.Blocks {
+			for _, in := range b.Instrs {
+				var v ssa.Value
+				what := ""
+				switch x := in.(type) {
+				case *ssa.MapUpdate:
+					if isBasic(x.Key.Type(), types.String) {
+						v, what = x.Key, "key or member written into the result"
+					}
+				case *ssa.Store:
+					if fa, ok := x.Addr.(*ssa.FieldAddr); ok && isBasic(x.Val.Type(), types.String) && fieldName(fa.X.Type(), fa.Field) == "Val" {
+						v, what = x.Val, "name stored in the symbol"
+					}
+				}
+				if v == nil {
+					continue
+				}
+				n++
+				r.check(asGiven(v, 0), rule, fn, what, in.Pos(), "the string as the caller gave it", "the constructor stores "+describeVal(e, v, 0)+", something computed from the string it was given: the form built from Go differs from the form the reader builds for the text with the same string, so the program means something else on the L-notation route")
+			}
+		}
+	}
+	r.floor(rule, "strings stored by the L-notation constructors", n, 3)
+}
+
+// nilBlindRule: the element storage of a list built from Go may be a nil slice where the reader allocates an
+// empty one (L() against "()"). Nothing that runs while a program is evaluated decides by that difference.
+func nilBlindRule(w *World, r *Report, e *Engine, rule string) {
+	r.rule(rule, "no code that runs while programs are evaluated compares the element slice of a list or vector ([]MalType) with nil: an empty list built from Go (L() hands over a nil slice) means what the empty list the reader allocates means (emptiness is decided by len)")
+	n := 0
+	for _, fn := range w.Funcs {
+		if isTestFunc(w, fn) || !runtimePkg(fnPkgPath(fn)) {
+			continue
+		}
+		for _, b := range fn.Blocks {
+			for _, in := range b.Instrs {
+				bo, ok := in.(*ssa.BinOp)
+				if !ok || (bo.Op != token.EQL && bo.Op != token.NEQ) {
+					continue
+				}
+				var x ssa.Value
+				switch {
+				case isNilConst(bo.Y):
+					x = bo.X
+				case isNilConst(bo.X):
+					x = bo.Y
+				default:
+					continue
+				}
+				// the one storage the routes differ in: L() hands over its variadic slice, nil when there are no
+				// elements, where the reader and V allocate; maps are allocated by every constructor
+				if sl, ok := x.Type().Underlying().(*types.Slice); !ok || !isMalType(sl.Elem()) {
+					continue
+				}
+				n++
+				// storage the function has just obtained from a call that reports failure by nil (a helper's
+				// "no result" answer) is no collection of the program
+				if c, ok := x.(*ssa.Call); ok && c.Call.StaticCallee() != nil {
+					r.ok(rule, fn, "nil test of "+describeVal(e, x, 0), bo.Pos(), "the result of a call, not a collection of the program")
+					continue
+				}
+				r.bad(rule, fn, "nil test of "+canonVal(e, x), bo.Pos(), "the code decides by whether the element storage of a collection is nil: a list, vector, map or set built from Go without elements (nil storage) is treated differently from the empty one the reader builds, so the same program means something else on the L-notation route")
+			}
+		}
+	}
+	r.add(rule, nil, "nil tests of element storage", token.NoPos, "ok", fmt.Sprintf("%d examined", n))
+}
+
+// typedNilResultRule: a bound Go function whose first result is a pointer hands the reader (constructors of the
+// «name ...» syntax) and the evaluator a lisp value. A nil pointer returned without an error becomes a non-nil
+// lisp value holding a nil pointer: it passes every nil test, and the first method called on it (printing it,
+// dereferencing it) goes through the nil pointer.
+func typedNilResultRule(w *World, r *Report, e *Engine, rule string) {
+	r.rule(rule, "no function bound by the reflective binder whose first result is a pointer returns the nil pointer together with a nil error: the value would reach programs (and PRINT) as a non-nil lisp value wrapping a nil pointer, whose methods dereference it")
+	var nilPtr func(v ssa.Value, depth int) bool
+	nilPtr = func(v ssa.Value, depth int) bool {
+		if depth > 5 {
+			return false
+		}
+		switch x := v.(type) {
+		case *ssa.Const:
+			return x.Value == nil
+		case *ssa.Phi:
+			for _, ed := range x.Edges {
+				if nilPtr(ed, depth+1) {
+					return true
+				}
+			}
+		case *ssa.ChangeType:
+			return nilPtr(x.X, depth+1)
+		}
+		return false
+	}
+	n := 0
+	for _, fn := range w.registeredFuncs() {
+		res := fn.Signature.Results()
+		if res.Len() != 2 || len(fn.Blocks) == 0 || !isErrorType(res.At(1).Type()) {
+			continue
+		}
+		if _, isPtr := res.At(0).Type().Underlying().(*types.Pointer); !isPtr {
+			continue
+		}
+		n++
+		for _, rt := range (&evalModel{}).returns(fn) {
+			ret := rt[0].(*ssa.Return)
+			ev, _ := rt[2].(ssa.Value)
+			if ev == nil || !isNilConst(ev) {
+				continue
+			}
+			r.check(!nilPtr(resolveRet(ret.Results[0]), 0), rule, fn, "pointer returned without an error", ret.Pos(), "never the nil pointer", "the function answers with a nil "+shortType(res.At(0).Type())+" and no error: the binder boxes it into a non-nil lisp value, and whatever prints or uses that value calls a method through the nil pointer")
+		}
+	}
+	r.floor(rule, "bound functions with a pointer result", n, 2)
 }
